@@ -113,13 +113,21 @@ func (c14) Gen(r *Rng, tier string, run int) *Trace {
 			for k := r.Range(1, 4); k > 0; k-- {
 				if r.Bool(0.2) {
 					args = append(args, vStr("bad"))
+				} else if r.Bool(0.1) {
+					args = append(args, vRef(other, r.Intn(nDress)))
 				} else {
 					args = append(args, g.uv())
 				}
 			}
 			pushLike(s0, args)
 		case 7:
-			if g.lenOf(s0) > 0 {
+			switch {
+			case r.Bool(0.25):
+				// documented: with a push policy installed the policy decides, no-nesting does not
+				g.emit(Op{Obj: s0, M: "SetNoNesting", Args: []Val{vBool(r.Bool(0.6))}}, false)
+			case r.Bool(0.2):
+				g.emit(Op{Obj: s0, M: "SetReadOnly", Args: []Val{vBool(!g.m.S[s0].Opt["ronly"])}}, false)
+			case g.lenOf(s0) > 0 && !g.m.S[s0].Opt["ronly"]:
 				g.emit(Op{Obj: s0, M: "Pop"}, false)
 				g.emit(Op{Obj: twin, M: "Pop", Tag: "twin"}, false)
 			}
